@@ -86,7 +86,14 @@ func (c refCfg) yaml() string {
 	if len(c.watchers) > 0 {
 		b.WriteString("watchers:\n")
 		for w, t := range c.watchers {
-			fmt.Fprintf(&b, "  %s:\n    watch: [\"*.nothing\"]\n    task: %q\n", w, t)
+			switch t {
+			case "~omitted~": // no task key at all
+				fmt.Fprintf(&b, "  %s:\n    watch: [\"*.nothing\"]\n", w)
+			case "~null~":
+				fmt.Fprintf(&b, "  %s:\n    watch: [\"*.nothing\"]\n    task:\n", w)
+			default:
+				fmt.Fprintf(&b, "  %s:\n    watch: [\"*.nothing\"]\n    task: %q\n", w, t)
+			}
 		}
 	}
 	return b.String()
@@ -119,6 +126,9 @@ func (c refCfg) line() string {
 	}
 	var ws []string
 	for _, t := range c.watchers {
+		if t == "" || strings.HasPrefix(t, "~") {
+			t = "no-task-named-at-all" // a watcher that names no task refers to no existing task
+		}
 		ws = append(ws, t)
 	}
 	w := strings.Join(ws, ",")
@@ -324,6 +334,12 @@ func mutations(c refCfg, rng *rand.Rand) []refCfg {
 		m.watchers[w] = "no-such-task"
 		m.mut = "watcher -> unknown task"
 		out = append(out, m)
+		for _, none := range []string{"", "~omitted~", "~null~"} {
+			mn := cloneCfg(c)
+			mn.watchers[w] = none
+			mn.mut = fmt.Sprintf("watcher -> unknown task (names no task at all: %q)", none)
+			out = append(out, mn)
+		}
 	}
 	if c.labels == 2 {
 		// a task is referred to by its key: its label is not a name a stage or a watcher can use
@@ -527,6 +543,13 @@ func runC18(col *Collector, tier string, seed int64) {
 		c.mut = fmt.Sprintf("stage p.early depends_on unknown stage among forward references %v", deps)
 		cases = append(cases, c)
 		tags = append(tags, "broken:p.early")
+	}
+	// a watcher that names no task at all (empty, null, key left out), and the sound one next to them
+	for _, wt := range []string{"t1", "", "~omitted~", "~null~", "no-such-task"} {
+		c := refCfg{tasks: []string{"t0", "t1"}, pipelines: map[string][]refStage{"p": {{name: "a", task: "t0"}}}, watchers: map[string]string{"w": wt}, porder: []string{"p"}}
+		c.mut = fmt.Sprintf("watcher naming the task %q", wt)
+		cases = append(cases, c)
+		tags = append(tags, map[bool]string{true: "valid", false: "broken:watcher"}[wt == "t1"])
 	}
 	for i := 0; i < nbase; i++ {
 		forcePipes = map[int]int{0: 1, 1: 4, 2: 2}[i] // the first three: one pipeline, four, two; then as drawn
